@@ -303,8 +303,20 @@ def run_hx(ctx, domain, args, out_dir=None, timeout=3600, env=None):
 
 
 def run_model(domain, out_dir, ops="ops.txt", dst="model.txt"):
-    with open(f"{out_dir}/{ops}") as fh:
-        p = subprocess.run([VMODEL, domain], stdin=fh, stdout=subprocess.PIPE, stderr=subprocess.PIPE, text=True)
+    p = None
+    for attempt in range(40):
+        # the driver binary is replaced by `lake build`; another check running concurrently may be
+        # relinking it right now (missing file / text file busy / killed): wait and retry
+        try:
+            with open(f"{out_dir}/{ops}") as fh:
+                p = subprocess.run([VMODEL, domain], stdin=fh, stdout=subprocess.PIPE, stderr=subprocess.PIPE, text=True)
+            if p.returncode >= 0:
+                break
+        except (FileNotFoundError, OSError):
+            pass
+        time.sleep(3)
+    if p is None:
+        raise RuntimeError(f"vmodel binary unavailable: {VMODEL}")
     with open(f"{out_dir}/{dst}", "w") as fh:
         fh.write(p.stdout)
     return p.returncode, p.stderr
